@@ -127,6 +127,25 @@ Example C11_premises_hold :
   ctor_accepts ts "a.C" "g" = Ok true /\ ctor_accepts ts "a.C" "nope" = Ok false.
 Proof. vm_compute. repeat split. Qed.
 
+(* ---- non-vacuity on the root: "any type" includes the built-in ancestors.  A feature on uima.cas.TOP reaches the types
+   that exist (built-in ones too), a type created directly below the root afterwards and its descendants; a conflicting
+   definition below is refused, one a built-in descendant holds already refuses the root's (descendant first) ---- *)
+Example C11_premises_hold_root :
+  let ops := [OCreateType "r.A" "uima.cas.TOP" None;
+              OCreateFeature "uima.cas.TOP" "f" "uima.cas.String" None None None;
+              OCreateType "r.B" "uima.cas.TOP" None; OCreateType "r.C" "r.B" None;
+              OCreateFeature "r.C" "f" "uima.cas.Integer" None None None;           (* refused: ancestor (the root) first *)
+              OCreateFeature "r.B" "f" "uima.cas.String" None None None;            (* identical: no-op *)
+              OCreateFeature "uima.cas.TOP" "begin" "uima.cas.String" None None None (* refused: Annotation.begin is Integer *)] in
+  let ts := final_ts ops init_ts in
+  wfb ts = true /\
+  snd (run_ts ops init_ts) = [ROk; ROk; ROk; ROk; RErr EValue; ROk; RErr EValue] /\
+  fst (run_ts_mech ops init_ts) = ts /\
+  map (fun n => option_map feature_names (find_ty ts n)) ["uima.cas.TOP"; "r.A"; "r.B"; "r.C"; "uima.cas.Integer"]
+    = [Some ["f"]; Some ["f"]; Some ["f"]; Some ["f"]; Some ["f"]] /\
+  ctor_accepts ts "r.C" "f" = Ok true /\ ctor_accepts ts "r.C" "begin" = Ok false.
+Proof. vm_compute. repeat split. Qed.
+
 (* ================================================================================================================
    Bridge (coq/Bridge.v, BridgeProofs.v): the feature half of the flattened view `flatten ts : schema` handed to the
    heap-level models.  For a registered type n, sch_feats (flatten ts) n is Type.all_features field by field (python
